@@ -151,6 +151,10 @@ def run(ctx: Ctx) -> None:
     def zid(i):
         return str(int(i[:2]) * 10**6 + int(i[3:]))
 
+    frames_for = {
+        "30C9": ["0007D0", "0007D0", "0007D1", "0107D0"], "2309": ["0007D0", "0007D0", "000834"], "1FC9": ["0030C9045A31"],
+        "0008": ["00C8", "00C8", "0000"], "3150": ["00C8", "00C8", "0064"],
+    }
     for _ in range(400 if thorough else 120):
         me = rng.choice(ids[:3])
         obj = _MessageDB.__new__(_MessageDB)
@@ -159,9 +163,21 @@ def run(ctx: Ctx) -> None:
         obj._gwy = SimpleNamespace(_zzz=None)
         ms = []
         for k in range(rng.randint(1, 12)):
-            m = SimpleNamespace(src=SimpleNamespace(id=rng.choice(ids)), dst=SimpleNamespace(id=rng.choice(ids)),
-                                verb=rng.choice(verbs), code=rng.choice(codes),
-                                _pkt=SimpleNamespace(_ctx=rng.choice(["00", "01", False])), val=k)
+            src, dst = rng.choice(ids), rng.choice(ids)
+            verb, code = rng.choice(verbs), rng.choice(codes)
+            # REAL messages where the frame is legal (equality is then by content, as in the library),
+            # with payloads that repeat: an unchanged reading re-announced later must still replace the older message
+            m = None
+            if src != dst and src[:2] != "63" and dst[:2] != "63" and verb in (" I", "RP") and rng.random() < 0.7:
+                pl = rng.choice(frames_for[code])
+                try:
+                    m = Message(Packet(T0 + td(seconds=k), f"000 {verb} --- {src} {dst} --:------ {code} {len(pl) // 2:03d} {pl}"))
+                    m.val = k
+                except Exception:  # noqa: BLE001
+                    m = None
+            if m is None:
+                m = SimpleNamespace(src=SimpleNamespace(id=src), dst=SimpleNamespace(id=dst), verb=verb, code=code,
+                                    _pkt=SimpleNamespace(_ctx=rng.choice(["00", "01", False])), val=k)
             _MessageDB._handle_msg(obj, m)
             ms.append(m)
         got = [obj._msgs_[c].val if c in obj._msgs_ else -1 for c in codes]
@@ -171,8 +187,9 @@ def run(ctx: Ctx) -> None:
             rel = [m.val for m in ms if m.code == c and m.verb in (" I", "RP") and (
                 m.src.id == me or (m.dst.id == me and m.verb != "RQ") or (m.dst.id == "63:262142" and c == "1FC9"))]
             if (rel[-1] if rel else -1) != g:
-                ctx.violation("store-not-latest", "the stored message for a code is not the most recent relevant one",
-                              {"entity": me, "code": c, "stored": g, "expected": rel[-1] if rel else None})
+                ctx.violation("store-not-latest", "the stored message for a code is not the most recently received relevant one",
+                              {"entity": me, "code": c, "stored_message_number": g, "latest_relevant_message_number": rel[-1] if rel else None,
+                               "messages": [(m.src.id, m.dst.id, m.verb, m.code, getattr(getattr(m, "_pkt", None), "payload", "")) for m in ms]})
         st_impl.append(got)
         coq_ms = "[" + "; ".join(
             f"{{| s_code := 0x{m.code}; s_verb := {verbs.index(m.verb)}; s_src := {zid(m.src.id)}; s_dst := {zid(m.dst.id)}; "
@@ -206,6 +223,7 @@ async def end_to_end(ctx: Ctx, trials: int) -> None:
     from ramses_rf import Gateway  # noqa: PLC0415
 
     rng = ctx.rng
+    await repeated_readings(ctx, max(4, trials // 6))
 
     def T(k):
         return f"{k:04X}"
@@ -316,3 +334,56 @@ async def end_to_end(ctx: Ctx, trials: int) -> None:
 def replay(case: dict) -> int:
     print(case.get("signature"), case.get("case"))
     return 0
+
+
+async def repeated_readings(ctx: Ctx, trials: int) -> None:
+    """An UNCHANGED reading re-announced periodically: the newest message is live, so the value must stay reported
+    however old the first announcement is."""
+    from ramses_rf import Gateway  # noqa: PLC0415
+
+    rng = ctx.rng
+    for trial in range(trials):
+        period = rng.choice([185, 300, 1200])
+        cycles = rng.choice([5, 8, 12])
+        arr = rng.random() < 0.5
+        t = dt(2026, 1, 1, 12, 0, 0)
+        lines = [f"{t.isoformat(timespec='microseconds')} 045 RP --- {CTL} {GW} --:------ 0005 004 00080300"]
+        for _ in range(cycles):
+            t += td(seconds=period)
+            if arr:
+                lines.append(f"{t.isoformat(timespec='microseconds')} 045  I --- {CTL} --:------ {CTL} 30C9 006 0007D00107D0")
+                lines.append(f"{(t + td(seconds=1)).isoformat(timespec='microseconds')} 045  I --- {CTL} --:------ {CTL} 2309 006 0008660108FC")
+            else:
+                lines.append(f"{t.isoformat(timespec='microseconds')} 045  I --- 34:064023 --:------ 34:064023 30C9 003 0007D0")
+        t += td(seconds=5)
+        lines.append(f"{t.isoformat(timespec='microseconds')} 045  I --- 32:000004 --:------ 32:000004 1298 003 000000")
+        g = Gateway(None, input_file=io.TextIOWrapper(io.BytesIO(("\n".join(lines) + "\n").encode())), config={"disable_discovery": True})
+        try:
+            await g.start()
+        except Exception as err:  # noqa: BLE001
+            ctx.dist["e2e-start-failed:" + type(err).__name__] += 1
+            continue
+        for _ in range(8):
+            await asyncio.sleep(0)
+        ctx.case(("repeat", trial, period, cycles, arr), True, "e2e-unchanged-reading-repeated")
+        if arr:
+            z = {int(z.idx, 16): z for z in g.tcs.zones}.get(0) if g.tcs else None
+            reads = []
+            for _ in range(2):
+                reads.append((z.temperature, z.setpoint) if z else None)
+                await asyncio.sleep(0)
+                await asyncio.sleep(0)
+            if z is None or any(r != (20.0, 21.5) for r in reads):
+                ctx.violation("live-repeated-reading-not-reported", "an unchanged reading that was just re-announced is not reported (the older copy aged out)",
+                              {"period_s": period, "cycles": cycles, "reads": reads, "log_tail": [x[27:] for x in lines[-4:]]}, "history")
+        else:
+            dev = next((d for d in g.devices if d.id == "34:064023"), None)
+            reads = []
+            for _ in range(2):
+                reads.append(dev.temperature if dev else "no-device")
+                await asyncio.sleep(0)
+                await asyncio.sleep(0)
+            if any(r != 20.0 for r in reads):
+                ctx.violation("live-repeated-reading-not-reported", "an unchanged reading that was just re-announced is not reported (the older copy aged out)",
+                              {"period_s": period, "cycles": cycles, "reads": reads, "log_tail": [x[27:] for x in lines[-4:]]}, "history")
+        await g.stop()
